@@ -1,4 +1,6 @@
 import Driver.FsmDriver
+import Driver.SszDriver
+import Driver.BoardDriver
 
 open Driver
 
@@ -10,9 +12,26 @@ partial def loopFsm (h : IO.FS.Stream) (out : IO.FS.Stream) (s : FsmSt) : IO Uni
   out.putStrLn o
   loopFsm h out s'
 
+partial def loopSsz (h : IO.FS.Stream) (out : IO.FS.Stream) (s : SszSt) : IO Unit := do
+  let line ← h.getLine
+  if line.isEmpty then return ()
+  let toks := (line.trimAscii.toString.splitOn " ").filter (· != "")
+  out.putStrLn (sszStep s toks)
+  loopSsz h out s
+
+partial def loopBoard (h : IO.FS.Stream) (out : IO.FS.Stream) (f : List Dc4bcVerif.Model.Board.Entry) : IO Unit := do
+  let line ← h.getLine
+  if line.isEmpty then return ()
+  let toks := (line.trimAscii.toString.splitOn " ").filter (· != "")
+  let (f', o) := boardStep f toks
+  out.putStrLn o
+  loopBoard h out f'
+
 def main (args : List String) : IO UInt32 := do
   let stdin ← IO.getStdin
   let stdout ← IO.getStdout
   match args with
   | ["fsm"] => loopFsm stdin stdout {}; pure 0
+  | ["board"] => loopBoard stdin stdout []; pure 0
+  | ["ssz"] => loopSsz stdin stdout ⟨Dc4bcVerif.Model.Tasks.bakedIndices.toArray⟩; pure 0
   | _ => IO.eprintln "usage: driver fsm|…"; pure 2
